@@ -82,13 +82,13 @@ class PollFuture(_Future):
 
     def running(self):
         with self._me_lock:
-            if self._delegate:
+            if self._delegate is not None:
                 return self._delegate.running()
         # If delegate is removed, we're now polling or done.
         return False
 
     def _me_cancel(self):
-        if self._delegate and not self._delegate.cancel():
+        if self._delegate is not None and not self._delegate.cancel():
             return False
         executor = self._executor
         return executor and executor._run_cancel_fn(self)
